@@ -1,6 +1,8 @@
 #!/bin/sh
 # Property-preserving changes (benign/<name>/patch.diff): every listed check must stay quiet (exit 0); DRIFT notes are fine.
 mkdir -p /tmp/bm-ev /tmp/bm-out
+# the machinery runs from a snapshot of /verif's working tree, so that editing /verif while the matrix runs cannot mix versions
+SNAP=/tmp/bm-verif-$$; rm -rf $SNAP; mkdir -p $SNAP; rsync -a --exclude .git --exclude evidence --exclude replay /verif/ $SNAP/; export SNAP
 ls /verif/benign | xargs -P ${PAR:-3} -I{} sh -c '
   name={}; ids=$(/venv/bin/python -c "import json;print(json.load(open(\"/verif/benign/$name/meta.json\"))[\"checks\"])")
   wt=/tmp/bm-$name
@@ -8,8 +10,9 @@ ls /verif/benign | xargs -P ${PAR:-3} -I{} sh -c '
   git -C /repo worktree add -q --detach $wt HEAD || exit 2
   git -C $wt apply /verif/benign/$name/patch.diff || { echo "$name PATCH-DOES-NOT-APPLY"; git -C /repo worktree remove --force $wt; exit 0; }
   for id in $ids; do
-    OPFYTHON_SRC=$wt VERIF_EVIDENCE_DIR=/tmp/bm-ev/$name VERIF_REPLAY_DIR=/tmp/bm-ev/$name/replay /verif/bin/check $id > /tmp/bm-out/$name-$id.out 2>&1; rc=$?
+    OPFYTHON_SRC=$wt VERIF_EVIDENCE_DIR=/tmp/bm-ev/$name VERIF_REPLAY_DIR=/tmp/bm-ev/$name/replay $SNAP/bin/check $id > /tmp/bm-out/$name-$id.out 2>&1; rc=$?
     echo "$name $id rc=$rc drift=$(grep -c "^DRIFT" /tmp/bm-out/$name-$id.out) $(grep -m1 "^VIOLATION\|MACHINERY" /tmp/bm-out/$name-$id.out | sed "s/.*# //" | cut -c1-160)"
   done
   git -C /repo worktree remove --force $wt
 '
+rm -rf $SNAP
